@@ -117,6 +117,14 @@ impl CertificateSigningRequestParams {
 			distinguished_name: DistinguishedName::from_name(&info.subject)?,
 			..CertificateParams::default()
 		};
+		// The key type is stated by the request's SubjectPublicKeyInfo, not by its signature
+		// algorithm: a P-384 key may sign with SHA-256.
+		let key_alg = crate::SubjectPublicKeyInfo::from_der(info.subject_pki.raw)?.alg;
+		let alg = if key_alg.oids_sign_alg == alg.oids_sign_alg {
+			alg
+		} else {
+			key_alg
+		};
 		let raw = info.subject_pki.subject_public_key.data.to_vec();
 
 		if let Some(extensions) = csr.requested_extensions() {
